@@ -73,7 +73,7 @@ CHECKS.update({
         text='Outcome class, whether the transport was asked to write, .available (also sampled at every transport call of a connect attempt) and local files compared with the model edges after every step of every sequence; model-edge coverage reported.',
         note='Trusted: ' + TB),
     'C14': dict(level='model_checking', design='5/C14',
-        technique='AdbAlloc (one action per source line of the id allocation block) explored by TLC with lock / sanity mutation without; model paths replayed with sys.settrace line-level preemption; exhaustive line-level DFS of the real block judged by the C14 clauses of TraceEnv; opens that fail after taking their id (design: ids are spent, never handed back; code: refused OPENs and raising calls overlapped by other opens)',
+        technique='AdbAlloc (one action per source line of the id allocation block) explored by TLC with lock / sanity mutation without; model paths replayed with sys.settrace line-level preemption; exhaustive line-level DFS of the real block judged by the C14 clauses of TraceEnv; opens that fail after taking their id (design: ids are spent, never handed back; code: refused OPENs and raising calls overlapped by other opens); thorough tier: inductive invariant of AdbAllocInd (the same allocator with M = 2^32 and any start value) discharged by Apalache, and checked by TLC with M = 9',
         text='IdRange and UniqueLive for 2-3 concurrent opens and counters at 0, M-3..M-1; every model path replayed on real threads; all line-level interleavings of two real _open calls (and random ones of three) near 0 and 2^32 judged on the OPEN packets on the wire.',
         note='Line-level interleavings exhaustively (2 threads); bytecode-level with one preemption at every instruction of _open. Trusted: ' + TB + '; sys.settrace.'),
 })
